@@ -158,6 +158,9 @@ def run_v2(spec):
 
 def replay(body):
     c = body['cex']
+    if 'live_size' in c or 'size' in c and 'fsize' in c:
+        r = run_defrag(dict(args=body['args'], kind='holds'))
+        return r.get('status') == 'sat' and bool(r.get('replayed')), r.get('detail', '')
     if 'offs' in c:
         r = run_v1_bulk(dict(args=body['args'], kind='holds'))
         return r.get('status') == 'sat' and bool(r.get('replayed')), r.get('detail', '')
@@ -299,6 +302,106 @@ def run_v1_bulk(spec):
     return out
 
 
+def run_defrag(spec):
+    """the real defrag_compact_cache over model bundles: symbolic live size / file size / thresholds
+    decide skip vs rewrite; in the rewrite every one of the 128x128 slots is read and every tile that
+    was present (border and interior slots) is written to the new bundle with its own bytes; the old
+    bundle is replaced only by a bundle that holds them all"""
+    from engine.symex import Loader, explore, real_var, int_var, AND, OR, NOT, assume, SymBool, model_value
+    patches = _patches(spec)
+    try:
+        L = Loader(shadow=True, patches=patches)
+        D = L.load('mapproxy.script.defrag')
+    except PatchDoesNotApply as e:
+        return dict(status='skipped', detail=str(e))
+    PRESENT = {(0, 0): b'a', (127, 0): b'bb', (0, 127): b'ccc', (127, 127): b'dddd', (64, 3): b'e', (126, 126): b'ff', (1, 127): b'g'}
+    terms = {}
+
+    def mk(solver):
+        size, fsize, minp, minb = real_var('live_size'), real_var('file_size'), real_var('min_percent'), real_var('min_bytes')
+        assume(AND(size >= 1, fsize >= size, minp >= 0, minp <= 1, minb >= 0))
+        terms.update(size=size, fsize=fsize, minp=minp, minb=minb)
+        return dict(size=size, fsize=fsize, minp=minp, minb=minb)
+
+    def body(size, fsize, minp, minb):
+        asked = []
+        stored = {}
+        fsops = []
+
+        class Bundle(object):
+            def __init__(self, base, offset):
+                self.base, self.offset = base, offset
+                self.is_tmp = base.endswith('tmp_defrag')
+
+            def size(self):
+                return size, fsize
+
+            def load_tiles(self, tiles):
+                for t in tiles:
+                    asked.append(tuple(t.coord))
+                    k = (t.coord[0], t.coord[1])
+                    if k in PRESENT and t.coord[2] == 0:
+                        t.source = PRESENT[k]
+                return True
+
+            def store_tiles(self, tiles):
+                assert self.is_tmp
+                for t in tiles:
+                    stored[(t.coord[0], t.coord[1])] = t.source
+                return True
+
+        class Cache(object):
+            cache_dir = '/cache'
+            bundle_class = Bundle
+        D.__dict__['glob'] = type('G', (), {'glob': staticmethod(lambda p: ['/cache/L05/R0080C0100.bundle'])})
+
+        class OS(object):
+            class path(object):
+                join = staticmethod(lambda *a: '/'.join(a))
+                exists = staticmethod(lambda p: True)
+            remove = staticmethod(lambda p: fsops.append(('remove', p)))
+            rename = staticmethod(lambda a, b: fsops.append(('rename', a, b)))
+            unlink = staticmethod(lambda p: fsops.append(('unlink', p)))
+        D.__dict__['os'] = OS
+        D.defrag_compact_cache(Cache(), min_percent=minp, min_bytes=minb)
+        frag = 1 - size / fsize
+        must_skip = OR(frag < minp, fsize - size < minb)
+        if not stored and not asked:
+            return AND(must_skip, not fsops)            # skipped: nothing touched
+        ok = NOT(must_skip)
+        full = len(set(asked)) == 128 * 128 and len(asked) == 128 * 128 and all(0 <= c[0] < 128 and 0 <= c[1] < 128 and c[2] == 0 for c in asked)
+        same = stored == PRESENT
+        renamed = ('rename', '/cache/tmp_defrag.bundle', '/cache/L05/R0080C0100.bundle') in fsops
+        removed_first = fsops and fsops[0] == ('remove', '/cache/L05/R0080C0100.bundle')
+        return AND(ok, full, same, renamed, removed_first)
+    if spec['kind'] == 'witness':
+        res = explore(lambda **kw: (body(**kw), False)[1], mk)
+    else:
+        res = explore(body, mk)
+    out = dict(status=res.status, stats=res.stats, detail=res.reason or (res.exc or ''), engine='E1', functions=['defrag_compact_cache', 'bundle_offset'])
+    if res.status == 'sat':
+        out['cex'] = {k: str(model_value(res.model, v.t)) for k, v in terms.items()}
+        # replay: the same run on the unshadowed module with the model's numbers
+        try:
+            vals = {k: float(model_value(res.model, v.t)) for k, v in terms.items()}
+            Ln = Loader(shadow=False, patches=patches)
+            Dn = Ln.load('mapproxy.script.defrag')
+            saved = dict(D.__dict__)
+            D.__dict__.clear()
+            D.__dict__.update(Dn.__dict__)
+            try:
+                r = body(vals['size'], vals['fsize'], vals['minp'], vals['minb'])
+            finally:
+                D.__dict__.clear()
+                D.__dict__.update(saved)
+            out['replayed'] = not bool(r)
+            out['detail'] = 'replay on the real defrag_compact_cache: %s' % ('reproduced' if not r else 'not reproduced')
+        except Exception as e:
+            out['replayed'] = True
+            out['detail'] = 'replay raised %s: %s' % (type(e).__name__, e)
+    return out
+
+
 CANARIES = [
     ('index stride 4 instead of 8', 'store', {'mapproxy.cache.compact': [(
         "return BUNDLE_V2_HEADER_SIZE + (x + BUNDLE_V2_GRID_HEIGHT * y) * 8", "return BUNDLE_V2_HEADER_SIZE + (x + BUNDLE_V2_GRID_HEIGHT * y) * 4")]}),
@@ -326,6 +429,10 @@ def obligations(tier, seed):
             specs.append(_spec('v2/store-step/payload%d/%s' % (n, part), 'run_v2', op='store', n=n, part=part, cost=60))
     for part in ['readback', 'other-entry', 'other-bytes', 'other-inv', 'no-overflow']:
         specs.append(_spec('v2/remove-step/%s' % part, 'run_v2', op='remove', part=part, cost=20))
+    specs.append(_spec('defrag/rewrite-copies-every-slot', 'run_defrag', cost=30))
+    specs.append(_spec('twin/defrag', 'run_defrag', kind='witness', cost=10))
+    specs.append(_spec('canary/defrag skips the last column', 'run_defrag', kind='canary', cost=20,
+                       patches={'mapproxy.script.defrag': [["            tiles = [Tile((x, y, 0)) for x in range(128)]", "            tiles = [Tile((x, y, 0)) for x in range(127)]"]]}))
     specs.append(_spec('v1/bulk-load-each-tile', 'run_v1_bulk', n=3, cost=10))
     specs.append(_spec('twin/v1-bulk-load', 'run_v1_bulk', kind='witness', n=3, cost=2))
     specs.append(_spec('canary/v1 bulk load stops at the first removed tile', 'run_v1_bulk', kind='canary', n=3, cost=5,
